@@ -1,4 +1,5 @@
-import BSModel.Proofs.PrettyLaws
+import BSModel.Proofs.PrettyStream
+import BSModel.Proofs.PrettyTokens
 /-! # C14 — prettify() changes only whitespace and shows the nesting
 
 Property theorems only. `decodeImpl`, `step`, `indentString`, `events`, `receiverStream`, `prettifyImpl`, `indentOf`,
@@ -8,6 +9,25 @@ Property theorems only. `decodeImpl`, `step`, `indentString`, `events`, `receive
 `OutermostPre`/`pieceSeq`/`Decorated`/`dropWs` (`Proofs/PrettyLaws.lean`) are the vocabulary of the statement. Tag and
 string pieces are opaque inputs. The tables (`whitespace`, `htmlPreserveWs`, `basePreserveWs`, `builtinIndents`,
 `defaultIndentInt`) are generated from the live objects on every run.
+
+Clause of the property → theorems (all for every tree, unit, level, encoding; none by finite enumeration):
+* "re-parses to the same tree as the plain output once whitespace inside text is disregarded" → `nonws_equal(_contents)`,
+  `recv_nonws_equal` (same non-whitespace characters, same order), `pretty_same_events` (same pieces, tags intact),
+  `pretty_same_tokens` + `specials_ok_table` (same token sequence modulo whitespace in character data; tokenizer not
+  modelled — see section 10; the tree-level comparison is the harness' re-parse oracle);
+* "everything inside whitespace-preserving elements (pre, textarea) is reproduced character for character" →
+  `preserve_verbatim`, `preserve_verbatim_line`, `preserve_verbatim_contents`, `html_preserve_tags`, `xml_preserves_nothing`,
+  `should_pretty_print_iff`;
+* "outside those elements every tag and every non-blank string sits on its own line, indented by unit × depth" →
+  `line_structure(_contents)`, `line_structure_general` (no visibility hypothesis), `recv_line_structure`, `blank_iff`,
+  `special_strings_have_lines`, `tag_piece_shape`, `void_receiver`;
+* "the output ends with a newline" → `ends_with_newline(_contents)`, `recv_line_structure` (declaration line included);
+* quantifier "every element as the starting point" → `decode_refines`, `recv_decode_refines` (visible / hidden receiver,
+  `decode_contents`, `BeautifulSoup` object, empty-element tag), `event_stream_refines`; "every built-in formatter and indent
+  setting" → `builtin_units` (whole table), `indent_none/int/str/other`, `indent_whitespace`; "HTML- and XML-flavoured trees" →
+  `html_preserve_tags`, `xml_preserves_nothing`, `xml_declaration(_python_specific)`; str and bytes flavour of `prettify` →
+  `prettify_flavours`, `prettify_bytes_of_str`; "trees from edit histories" → the statements are about arbitrary trees
+  (identities distinct), whatever history produced them.
 
 Hypotheses that appear below and why they are harmless:
 * `distinct t` — no element has the identity of one of its own descendants (`decode` compares with `is`); true of every
@@ -107,6 +127,7 @@ theorem prettify_refines (u : PStr) (hidden : Bool) (t : Node) (h : distinct t =
   simpa [prettifyImpl] using this
 
 example : prettifyImpl (ofS " ") true demoSoup = ofS "t\n<a>\n</a>\n" := by decide
+example : distinctL demoSoup.kids = true ∧ distinct demoSoup = true := by decide
 example : levelOf .true = some 0 ∧ levelOf .none = none ∧ levelOf (.int (-1)) = some (-1) := by decide
 
 /-! ## 2. every tag and every non-blank string on its own line, indented by unit × depth -/
@@ -151,6 +172,7 @@ theorem ends_with_newline_contents (u : PStr) (l : Int) (ks : List Node) (hd : d
   exact EndsNl.getLast (h ▸ layout_endsNl u l _) hne
 
 example : decodeImpl (ofS " ") (some 0) (eventsL [.str (ofS "  ")]) = [] := by decide
+example : decodeImpl (ofS " ") (some 0) (events demo) ≠ [] := by decide
 /-- the hypothesis `preVisible` is needed: a hidden `<pre>` leaves its contents without a final newline -/
 example : decodeImpl (ofS " ") (some 0) (events (.elem 0 [] [] true [.str (ofS "x")])) = ofS "x" := by decide
 
@@ -191,6 +213,7 @@ theorem nonws_equal_contents (u : PStr) (l : Int) (ks : List Node) (hd : distinc
   exact dropWs_prettyL u hu ks l false
 
 example : dropWs (ofS " <a>\n  x y\n") = ofS "<a>xy" := by decide
+example : (∀ c ∈ ofS " \t", isSpace c = true) ∧ (∀ c ∈ ([] : PStr), isSpace c = true) := by decide
 /-- the hypothesis on the unit is needed -/
 example : dropWs (decodeImpl (ofS "--") (some 1) (events (.void (ofS "<br/>")))) ≠
     dropWs (decodeImpl (ofS "--") none (events (.void (ofS "<br/>")))) := by decide
@@ -237,6 +260,7 @@ theorem indent_whitespace (a : IndentArg) (h : ∀ s, a ≠ .str s) : ∀ c ∈ 
   | other => simp [indent_other] at hc; rw [hc]; exact h32
 
 example : indentOf (.int 3) = ofS "   " ∧ indentOf (.int (-1)) = [] ∧ indentOf (.str (ofS "\t")) = ofS "\t" := by decide
+example : ∀ s, IndentArg.int 3 ≠ .str s := by intro s h; cases h
 
 /-- Table fact (generated from `HTMLFormatter.REGISTRY`/`XMLFormatter.REGISTRY` and the signature of `Formatter.__init__`):
     every built-in formatter, and the default of `indent=`, indents by exactly one space. -/
@@ -284,5 +308,349 @@ example : mkTag 7 (ofS "<br/>") (ofS "</br>") (some BS.Gen.Pretty.htmlPreserveWs
     newline — and tab are whitespace; the zero-width space and the markup characters `<`, `>`, `&` are not. -/
 theorem whitespace_table : isSpace 32 = true ∧ isSpace 10 = true ∧ isSpace 9 = true ∧ isSpace 0x200b = false ∧
     isSpace 60 = false ∧ isSpace 62 = false ∧ isSpace 38 = false := by decide +kernel
+
+/-! ## 6b. `_event_stream` itself -/
+
+/-- `_event_stream`'s walk — a stack of open tags, popped (END events) while the next element's parent *is not* the tag on top,
+    START/EMPTY/STRING for the element, everything left closed at the end — over the pre-order of a tree with parent
+    pointers yields exactly the balanced event list the other theorems are about; for `self_and_descendants` of a visible
+    receiver (`p` = its parent, never looked at) and for `descendants` / a hidden receiver (`p` = the receiver). Identities are
+    pairwise distinct here (`Nodup`): the walk compares parents with `is`. -/
+theorem event_stream_refines (p : Nat) (t : Node) (ks : List Node) :
+    ((ids t).Nodup → streamImpl [] (flat p t) = events t) ∧
+    ((idsL ks).Nodup → p ∉ idsL ks → streamImpl [] (flatL p ks) = eventsL ks) := by
+  constructor
+  · intro hn
+    have := stream_node t p [] [] (Or.inl rfl) (by simp) hn
+    simpa [streamImpl] using this
+  · intro hn hp
+    have := stream_forest ks p [] [] (Or.inl rfl) (by simp) hn hp
+    simpa [streamImpl] using this
+
+example : (ids demo).Nodup := by decide
+example : streamImpl [] (flat 99 demo) = events demo := by decide
+/-- two tags with one identity: the walk leaves the inner one open when the outer one's next child arrives -/
+example : streamImpl [] (flat 9 (.elem 1 [60] [62] false [.elem 1 [60] [62] false [], .str [97]])) ≠
+    events (.elem 1 [60] [62] false [.elem 1 [60] [62] false [], .str [97]]) := by decide
+
+/-- End to end: `decode(indent_level=l)` run on what `_event_stream` really yields is the recursive pretty rendering. -/
+theorem decode_on_walk (u : PStr) (l : Int) (p : Nat) (t : Node) (hn : (ids t).Nodup) :
+    decodeImpl u (some l) (streamImpl [] (flat p t)) = prettyNode u l false t := by
+  rw [(event_stream_refines p t []).1 hn, pretty_refines u l t (nodup_distinct t hn)]
+
+/-! ## 7. every tree, hidden whitespace-preserving elements included; verbatim blocks seen from a hidden receiver -/
+
+/-- Line structure without the visibility hypothesis: for *every* tree the pretty output is the concatenation of its blocks —
+    the lines of `line_structure`, except that a whitespace-preserving element without opening (closing) piece — a hidden
+    one — is a block that lacks the indentation (the newline). -/
+theorem line_structure_general (u : PStr) (l : Int) (t : Node) (hd : distinct t = true) :
+    decodeImpl u (some l) (events t) = layoutB u l (blocks 0 t) ∧
+    (preVisible t = true → blocks 0 t = (items 0 t).map lineBlock) := by
+  refine ⟨?_, blocks_items t 0⟩
+  rw [pretty_refines u l t hd]
+  simpa using pretty_blocks u t l 0
+
+example : blocks 0 (.elem 0 (ofS "<p>") (ofS "</p>") false [.elem 1 [] [] true [.str (ofS " x ")], .str (ofS "y")]) =
+    [⟨0, true, ofS "<p>", true⟩, ⟨1, false, ofS " x ", false⟩, ⟨1, true, ofS "y", true⟩, ⟨0, true, ofS "</p>", true⟩] := by
+  decide
+
+/-- `preserve_verbatim` for `decode_contents` and hidden receivers (`BeautifulSoup.prettify()`): an outermost
+    whitespace-preserving element below one of the children. -/
+theorem preserve_verbatim_contents (u : PStr) (l : Int) {d : Nat} {e k : Node} {ks : List Node} (hd : distinctL ks = true)
+    (hk : k ∈ ks) (h : OutermostPre d e k) :
+    decodeImpl u none (events e) <:+: decodeImpl u (some l) (eventsL ks) ∧
+    (preVisible e = true → rep u (l + d) ++ decodeImpl u none (events e) ++ [10] <:+: decodeImpl u (some l) (eventsL ks)) := by
+  rw [plain_refines, pretty_refines_contents u l ks hd]
+  exact ⟨outermost_infix_L u hk h l, fun hv => outermost_line_L u hk h hv l⟩
+
+example : OutermostPre 0 demoPre demoPre ∧ demoPre ∈ [Node.str (ofS " "), demoPre] := ⟨.self 3 _ _ _, by simp⟩
+
+/-! ## 8. the pieces: tags and special strings -/
+
+/-- `_format_tag`: a hidden tag has no pieces; any other tag's pieces start with `<` and end with `>` — so they are never
+    empty or blank and `strip()` would not change them (which is why `decode` strips string pieces only). With this,
+    `preVisible` says exactly "no hidden whitespace-preserving element" (`preVisible_resolve`). -/
+theorem tag_piece_shape (c : RCfg) (i : TagInfo) (isEmpty opening : Bool) :
+    (i.hidden = true → formatTag c i isEmpty opening = []) ∧
+    (i.hidden = false → ∃ mid, formatTag c i isEmpty opening = 60 :: (mid ++ [62])) ∧
+    strip (formatTag c i isEmpty opening) = formatTag c i isEmpty opening :=
+  ⟨formatTag_hidden c i isEmpty opening, formatTag_visible c i isEmpty opening, strip_formatTag c i isEmpty opening⟩
+
+/-- a `<meta charset>` whose attribute string depends on the eventual encoding, and an empty-element tag -/
+def metaInfo : TagInfo :=
+  { id := 1, soupXml := none, hidden := false, nsPrefix := [], name := ofS "meta", attrDefault := ofS " charset=\"utf-8\"",
+    attrBy := [(none, ofS " charset=\"iso-8859-1\""), (some (ofS "latin-1"), ofS " charset=\"latin-1\"")],
+    preserveWs := some BS.Gen.Pretty.htmlPreserveWs, canBeEmpty := true }
+
+example : formatTag ⟨some (ofS "utf-8"), ofS "/"⟩ metaInfo true true = ofS "<meta charset=\"utf-8\"/>" ∧
+    formatTag ⟨none, ofS "/"⟩ metaInfo true true = ofS "<meta charset=\"iso-8859-1\"/>" ∧
+    formatTag ⟨none, []⟩ { metaInfo with nsPrefix := ofS "ns" } false false = ofS "</ns:meta>" ∧
+    formatTag ⟨none, []⟩ { metaInfo with hidden := true } false false = [] := by decide
+
+/-- Table fact over the WHOLE generated table of `NavigableString` subclasses (PREFIX, SUFFIX), lifted by
+    `strip_outputReady`: a string of a class with a PREFIX (comment, CDATA, processing instruction, declaration, doctype)
+    strips to PREFIX ++ body ++ SUFFIX-without-trailing-whitespace — never blank, whatever its body — so it always gets its
+    line, content intact; the other classes have neither PREFIX nor SUFFIX (their piece is the substituted text). -/
+theorem special_strings_have_lines :
+    ∀ e ∈ BS.Gen.Pretty.stringAffixes, (e.2.1 = [] → e.2.2.1 = []) ∧
+      (e.2.1 ≠ [] → ∀ body, strip (outputReady e.2.1 e.2.2.1 body) = e.2.1 ++ body ++ rstrip e.2.2.1 ∧
+        strip (outputReady e.2.1 e.2.2.1 body) ≠ []) := by
+  have hall : BS.Gen.Pretty.stringAffixes.all (fun e => affixOk e && (!e.2.1.isEmpty || e.2.2.1.isEmpty)) = true := by
+    decide +kernel
+  intro e he
+  have h := List.all_eq_true.mp hall e he
+  simp only [Bool.and_eq_true, Bool.or_eq_true, Bool.not_eq_true', List.isEmpty_iff] at h
+  refine ⟨fun hp => ?_, fun hp body => strip_outputReady e h.1 hp body⟩
+  rcases h.2 with h2 | h2
+  · simp [hp] at h2
+  · exact h2
+
+example : (ofS "Doctype", ofS "<!DOCTYPE ", ofS ">\n", true) ∈ BS.Gen.Pretty.stringAffixes ∧
+    (ofS "Comment", ofS "<!--", ofS "-->", true) ∈ BS.Gen.Pretty.stringAffixes := by decide
+example : strip (outputReady (ofS "<!DOCTYPE ") (ofS ">\n") (ofS "html")) = ofS "<!DOCTYPE html>" ∧
+    strip (outputReady (ofS "<!--") (ofS "-->") (ofS "  ")) = ofS "<!--  -->" := by decide
+
+/-! ## 9. receivers, encodings, the bytes flavour, the XML declaration -/
+
+/-- `<head><meta charset/><br/></head>`-like raw tree: identities 0..2 -/
+def demoRaw : RNode :=
+  .tag { id := 0, soupXml := none, hidden := false, nsPrefix := [], name := ofS "head", attrDefault := [], attrBy := [],
+         preserveWs := some BS.Gen.Pretty.htmlPreserveWs, canBeEmpty := false }
+    [.tag metaInfo [], .str (ofS "<!--") (ofS "-->") (ofS " c "), .str [] [] (ofS " t ")]
+
+/-- an XML-flavoured `BeautifulSoup` object (hidden) over one empty-element tag -/
+def demoXmlSoup : RNode :=
+  .tag { id := 0, soupXml := some true, hidden := true, nsPrefix := [], name := ofS "[document]", attrDefault := [], attrBy := [],
+         preserveWs := some [], canBeEmpty := false }
+    [.tag { metaInfo with name := ofS "a", attrDefault := [], attrBy := [], preserveWs := some [] } []]
+
+/-- Refinement for every receiver and entry point: `decode`/`decode_contents` of a `Tag`, and of a `BeautifulSoup` object
+    (XML declaration first, deprecated bool level), at every `eventual_encoding`, equal the recursive specification on the
+    pieces `_format_tag`/`output_ready` produce under that encoding. -/
+theorem recv_decode_refines (u vcp : PStr) (lvl : LevelArg) (enc : Option PStr) (co : Bool) (r : RNode)
+    (h : rdistinct r = true) : recvDecode u vcp lvl enc co r = recvSpec u vcp lvl enc co r := by
+  have hd := distinct_resolve ⟨enc, vcp⟩ r h
+  unfold recvDecode recvSpec soupDecode tagDecode
+  cases r.soupXml with
+  | none => simp [decode_refines u lvl r.hidden co _ hd]
+  | some x => simp [decode_refines u (soupLevel lvl) r.hidden co _ hd]
+
+example : rdistinct demoRaw = true ∧ rdistinct demoXmlSoup = true := by decide
+example : recvDecode (ofS " ") (ofS "/") (.int 0) (some (ofS "utf-8")) false demoRaw =
+    ofS "<head>\n <meta charset=\"utf-8\"/>\n <!-- c -->\n t\n</head>\n" := by decide
+example : recvDecode (ofS " ") (ofS "/") .true (some (ofS "utf-8")) false demoXmlSoup =
+    ofS "<?xml version=\"1.0\" encoding=\"utf-8\"?>\n<a/>\n" ∧
+    recvDecode (ofS " ") (ofS "/") .false (some (ofS "idna")) false demoXmlSoup = ofS "<?xml version=\"1.0\"?>\n<a/>" := by
+  decide
+
+/-- The XML declaration: an `is_xml` soup's output is the declaration line — naming the eventual encoding unless it is None or
+    one of `PYTHON_SPECIFIC_ENCODINGS` (generated table, consulted by membership: holds for the whole table) — followed by what
+    `Tag.decode` gives; any other receiver has no such line. -/
+theorem xml_declaration (u vcp : PStr) (lvl : LevelArg) (enc : Option PStr) (co : Bool) (r : RNode) :
+    (r.soupXml = some true →
+      recvDecode u vcp lvl enc co r =
+        ofS "<?xml version=\"1.0\"" ++
+          (match enc with
+           | some e => if BS.Gen.Pretty.pythonSpecificEncodings.contains e then [] else ofS " encoding=\"" ++ e ++ ofS "\""
+           | none => []) ++ ofS "?>\n" ++ tagDecode u vcp (soupLevel lvl) enc co r) ∧
+    (r.soupXml = some false → recvDecode u vcp lvl enc co r = tagDecode u vcp (soupLevel lvl) enc co r) ∧
+    (r.soupXml = none → recvDecode u vcp lvl enc co r = tagDecode u vcp lvl enc co r) := by
+  refine ⟨fun h => ?_, fun h => ?_, fun h => ?_⟩
+  · simp only [recvDecode, h, soupDecode, xmlDecl, if_true]
+    cases enc with
+    | none => simp
+    | some e => by_cases hc : e ∈ BS.Gen.Pretty.pythonSpecificEncodings <;> simp [hc]
+  · simp [recvDecode, h, soupDecode, xmlDecl]
+  · simp [recvDecode, h]
+
+/-- every python-specific encoding of the generated table is left out of the declaration -/
+theorem xml_declaration_python_specific :
+    ∀ e ∈ BS.Gen.Pretty.pythonSpecificEncodings, xmlDecl true (some e) = ofS "<?xml version=\"1.0\"?>\n" := by
+  intro e he
+  simp only [xmlDecl, if_true, List.contains_eq_mem, he, decide_true]
+  decide
+
+example : ofS "idna" ∈ BS.Gen.Pretty.pythonSpecificEncodings ∧ ofS "utf-8" ∉ BS.Gen.Pretty.pythonSpecificEncodings := by decide
+example : demoXmlSoup.soupXml = some true ∧ demoRaw.soupXml = none := by decide
+
+/-- Only whitespace changes, for every receiver, entry point, level argument and eventual encoding: the output has the same
+    non-whitespace code points as the plain output *for the same eventual encoding* (declaration line included). -/
+theorem recv_nonws_equal (u vcp : PStr) (lvl : LevelArg) (enc : Option PStr) (co : Bool) (r : RNode) (hd : rdistinct r = true)
+    (hu : ∀ c ∈ u, isSpace c = true) :
+    dropWs (recvDecode u vcp lvl enc co r) = dropWs (recvDecode u vcp .none enc co r) := by
+  rw [recv_decode_refines u vcp lvl enc co r hd, recv_decode_refines u vcp .none enc co r hd]
+  unfold recvSpec
+  cases r.soupXml with
+  | none => simpa [levelOf] using dropWs_decodeSpec u hu (levelOf lvl) r.hidden co _
+  | some x =>
+    simp only [dropWs_append]
+    congr 1
+    simpa [levelOf, soupLevel] using dropWs_decodeSpec u hu (levelOf (soupLevel lvl)) r.hidden co _
+
+/-- the default `eventual_encoding` of the `decode` a receiver's `self.decode(...)` reaches (generated from the signatures) -/
+def decodeDefault (r : RNode) : Option PStr :=
+  match r.soupXml with
+  | some _ => BS.Gen.Pretty.soupDecodeDefaultEnc
+  | none => BS.Gen.Pretty.tagDecodeDefaultEnc
+
+/-- Table fact (generated from the signatures of `Tag.decode`, `Tag.decode_contents`, `Tag.encode`, `Tag.encode_contents`,
+    `BeautifulSoup.decode`, `Tag.prettify`): every rendering entry point has the same default eventual encoding, and
+    `prettify`'s own `encoding` defaults to None (the str flavour) — so `prettify()`, `decode()`, `str()`, `decode_contents()`
+    and the text inside `encode()` with arguments omitted all render `<meta>` charsets and the XML declaration alike. -/
+theorem default_encodings_agree :
+    BS.Gen.Pretty.tagDecodeContentsDefaultEnc = BS.Gen.Pretty.tagDecodeDefaultEnc ∧
+    BS.Gen.Pretty.tagEncodeDefaultEnc = BS.Gen.Pretty.tagDecodeDefaultEnc ∧
+    BS.Gen.Pretty.tagEncodeContentsDefaultEnc = BS.Gen.Pretty.tagDecodeDefaultEnc ∧
+    BS.Gen.Pretty.soupDecodeDefaultEnc = BS.Gen.Pretty.tagDecodeDefaultEnc ∧
+    BS.Gen.Pretty.tagDecodeDefaultEnc = some BS.Gen.Pretty.defaultOutputEncoding ∧
+    BS.Gen.Pretty.tagPrettifyDefaultEnc = none := by decide +kernel
+
+/-- The two flavours of `prettify`. Without an encoding: the text `decode(indent_level=0)` gives with the encoding argument
+    omitted — hence (whitespace unit) the same non-whitespace characters as `decode()`/`str()`; in particular a charset
+    declaration in a `<meta>` is rewritten the same way in both. With an encoding `e`: the bytes of the text
+    `decode(0, e)` gives — the same non-whitespace characters as the text `encode(e)` hands to the codec. -/
+theorem prettify_flavours (u vcp : PStr) (r : RNode) (hd : rdistinct r = true) (hu : ∀ c ∈ u, isSpace c = true) :
+    (∃ t, prettifyRaw u vcp none r = .str t ∧ t = recvDecode u vcp (.int 0) (decodeDefault r) false r ∧
+      dropWs t = dropWs (recvDecode u vcp .none (decodeDefault r) false r)) ∧
+    (∀ e, ∃ t t', prettifyRaw u vcp (some e) r = .bytes e t ∧ encodeImpl u vcp e .none r = .bytes e t' ∧
+      t = recvDecode u vcp (.int 0) (some e) false r ∧ dropWs t = dropWs t') := by
+  refine ⟨⟨_, ?_, rfl, recv_nonws_equal u vcp (.int 0) _ false r hd hu⟩, fun e => ⟨_, _, rfl, rfl, rfl, ?_⟩⟩
+  · unfold prettifyRaw decodeDefault
+    cases r.soupXml <;> rfl
+  · exact recv_nonws_equal u vcp (.int 0) (some e) false r hd hu
+
+example : prettifyRaw (ofS " ") (ofS "/") none demoRaw =
+    .str (ofS "<head>\n <meta charset=\"utf-8\"/>\n <!-- c -->\n t\n</head>\n") ∧
+    prettifyRaw (ofS " ") (ofS "/") (some (ofS "latin-1")) demoRaw =
+    .bytes (ofS "latin-1") (ofS "<head>\n <meta charset=\"latin-1\"/>\n <!-- c -->\n t\n</head>\n") := by decide
+/-- the encodings matter: rendering the pretty text with `eventual_encoding=None` while the plain text uses the default would
+    change non-whitespace characters of a `<meta charset>` -/
+example : dropWs (recvDecode (ofS " ") (ofS "/") (.int 0) none false demoRaw) ≠
+    dropWs (recvDecode (ofS " ") (ofS "/") .none (decodeDefault demoRaw) false demoRaw) := by decide
+
+/-- A tree whose attribute strings do not depend on the encoding (no charset-substituting `<meta>`) and that is not an XML soup
+    renders the same text in both flavours: `prettify(e)` is the encoded `prettify()`. -/
+theorem prettify_bytes_of_str (u vcp : PStr) (e : PStr) (r : RNode) (hx : r.soupXml ≠ some true)
+    (hr : ∀ enc, resolve ⟨enc, vcp⟩ r = resolve ⟨none, vcp⟩ r) :
+    ∃ t, prettifyRaw u vcp none r = .str t ∧ prettifyRaw u vcp (some e) r = .bytes e t := by
+  refine ⟨_, rfl, ?_⟩
+  simp only [prettifyRaw, encodeImpl, recvDecode, soupDecode, tagDecode, hr (some e)]
+  cases hs : r.soupXml with
+  | none => simp [hr BS.Gen.Pretty.tagDecodeDefaultEnc]
+  | some x =>
+    have : x = false := by cases x <;> simp_all
+    simp [this, xmlDecl, hr BS.Gen.Pretty.soupDecodeDefaultEnc]
+
+example : ∀ enc, resolve ⟨enc, ofS "/"⟩ demoXmlSoup = resolve ⟨none, ofS "/"⟩ demoXmlSoup := fun _ => rfl
+example : (RNode.tag { metaInfo with attrBy := [] } []).soupXml ≠ some true ∧
+    ∀ enc, resolve ⟨enc, ofS "/"⟩ (.tag { metaInfo with attrBy := [] } []) = resolve ⟨none, ofS "/"⟩ (.tag { metaInfo with attrBy := [] } []) :=
+  ⟨by decide, fun _ => rfl⟩
+
+/-- An empty-element tag as the starting point: its tag on a line of its own — indented by the start level, newline after. -/
+theorem void_receiver (u vcp : PStr) (l : Int) (enc : Option PStr) (i : TagInfo) (hc : i.canBeEmpty = true)
+    (hh : i.hidden = false) (hs : i.soupXml = none) :
+    recvDecode u vcp (.int l) enc false (.tag i []) = rep u l ++ formatTag ⟨enc, vcp⟩ i true true ++ [10] ∧
+    prettifyRaw u vcp none (.tag i []) = .str (formatTag ⟨BS.Gen.Pretty.tagDecodeDefaultEnc, vcp⟩ i true true ++ [10]) := by
+  have hne := formatTag_ne_nil ⟨enc, vcp⟩ i true true hh
+  have hne' := formatTag_ne_nil ⟨BS.Gen.Pretty.tagDecodeDefaultEnc, vcp⟩ i true true hh
+  constructor
+  · simp [recvDecode, RNode.soupXml, hs, tagDecode, RNode.hidden, hh, receiverStream, resolve, resolveL, mkTag, hc, events,
+      decodeImpl_eq_run, run_cons, step_empty_out, fullLine, hne, levelOf]
+  · simp [prettifyRaw, recvDecode, RNode.soupXml, hs, tagDecode, RNode.hidden, hh, receiverStream, resolve, resolveL, mkTag, hc,
+      events, decodeImpl_eq_run, run_cons, step_empty_out, fullLine, hne', levelOf]
+
+example : recvDecode (ofS "  ") (ofS "/") (.int 2) none false (.tag metaInfo []) = ofS "    <meta charset=\"iso-8859-1\"/>\n" := by
+  decide
+example : metaInfo.canBeEmpty = true ∧ metaInfo.hidden = false ∧ metaInfo.soupXml = none := by decide
+
+/-- Line structure and final newline for every receiver at the level of the objects: a visible receiver gives its own lines, a
+    hidden one (the `BeautifulSoup` object) or `decode_contents` the children's, after the declaration line if any; and the
+    output, unless empty, ends with a newline. `rPreVisible`: no whitespace-preserving element met outside literal mode is hidden. -/
+theorem recv_line_structure (u vcp : PStr) (l : Int) (enc : Option PStr) (co : Bool) (r : RNode) (hd : rdistinct r = true)
+    (hv : if (r.hidden || co) = true then rPreVisibleL r.kids = true else rPreVisible r = true) :
+    recvDecode u vcp (.int l) enc co r =
+      (match r.soupXml with | some x => xmlDecl x enc | none => []) ++
+      layout u l (if (r.hidden || co) = true then itemsL 0 (resolveL ⟨enc, vcp⟩ r.kids) else items 0 (resolve ⟨enc, vcp⟩ r)) ∧
+    (recvDecode u vcp (.int l) enc co r ≠ [] → (recvDecode u vcp (.int l) enc co r).getLast? = some 10) := by
+  have key : recvDecode u vcp (.int l) enc co r =
+      (match r.soupXml with | some x => xmlDecl x enc | none => []) ++
+      layout u l (if (r.hidden || co) = true then itemsL 0 (resolveL ⟨enc, vcp⟩ r.kids) else items 0 (resolve ⟨enc, vcp⟩ r)) := by
+    rw [recv_decode_refines u vcp (.int l) enc co r hd]
+    have body : decodeSpec u (some l) r.hidden co (resolve ⟨enc, vcp⟩ r) =
+        layout u l (if (r.hidden || co) = true then itemsL 0 (resolveL ⟨enc, vcp⟩ r.kids) else items 0 (resolve ⟨enc, vcp⟩ r)) := by
+      by_cases hc : (r.hidden || co) = true
+      · simp only [hc, if_true] at hv ⊢
+        have := prettyL_layout u (resolveL ⟨enc, vcp⟩ r.kids) l 0 (preVisibleL_resolve _ _ hv)
+        simp only [Int.natCast_zero, Int.add_zero] at this
+        simp [decodeSpec, hc, kids_resolve, this]
+      · simp only [hc, Bool.false_eq_true, if_false] at hv ⊢
+        have := pretty_layout u (resolve ⟨enc, vcp⟩ r) l 0 (preVisible_resolve _ _ hv)
+        simp only [Int.natCast_zero, Int.add_zero] at this
+        simp [decodeSpec, hc, this]
+    unfold recvSpec
+    cases r.soupXml with
+    | none => simpa [levelOf] using body
+    | some x => simpa [levelOf, soupLevel] using body
+  refine ⟨key, fun hne => ?_⟩
+  have he : EndsNl (recvDecode u vcp (.int l) enc co r) := by
+    rw [key]
+    apply EndsNl.append
+    · cases r.soupXml with
+      | none => exact Or.inl rfl
+      | some x => exact xmlDecl_endsNl x enc
+    · exact layout_endsNl u l _
+  exact he.getLast hne
+
+example : rPreVisible demoRaw = true ∧ rPreVisibleL demoXmlSoup.kids = true ∧ demoXmlSoup.hidden = true := by decide
+
+/-! ## 10. "re-parses to the same tree once whitespace inside text is disregarded": the token level
+
+    Full statement of the clause: `parse(prettify(t))` and `parse(decode(t))` are the same tree up to whitespace in text nodes.
+    `parse` = CPython's `html.parser` tokenizer + bs4's tree builder. The tokenizer is not modelled in this framework (C05's
+    `Reparse.lean` models the builder on tokenizer events and likewise takes the events as given), so the clause is proved up
+    to the tokenizer: the two outputs, cut into tokens where a tokenizer cuts well-formed output, are the same token sequence
+    once adjacent character data is merged and whitespace in it is disregarded. A tree builder is a function of that
+    sequence (bs4's merges `handle_data` calls until the next tag; whitespace-only data never opens or closes an element).
+    That html.parser really cuts the two texts like this — and the resulting trees — is what the harness' re-parse oracle
+    checks on the real outputs (for text pieces that are inert for the tokenizer). -/
+
+/-- Same tokens modulo whitespace in character data, for every tree of objects, unit of whitespace, level and encoding:
+    (1) `prettyToks`/`plainToks` are cuts of the real pretty / plain output of a visible receiver — every tag piece and every
+    string with a PREFIX (minus whitespace after its closing delimiter) one markup token, the rest character data;
+    (2) after merging adjacent character data, removing whitespace from it and dropping empty runs, the two token sequences
+    are equal. `specialsOk`: a PREFIX starts with a non-whitespace character (`specials_ok_table`). -/
+theorem pretty_same_tokens (u vcp : PStr) (l : Int) (enc : Option PStr) (r : RNode) (hd : rdistinct r = true)
+    (hh : r.hidden = false) (hu : ∀ c ∈ u, isSpace c = true) (hok : specialsOk r = true) :
+    tagDecode u vcp (.int l) enc false r = textOf (prettyToks ⟨enc, vcp⟩ u l false r) ∧
+    tagDecode u vcp .none enc false r = textOf (plainToks ⟨enc, vcp⟩ r) ∧
+    canon (prettyToks ⟨enc, vcp⟩ u l false r) = canon (plainToks ⟨enc, vcp⟩ r) := by
+  have hdist := distinct_resolve ⟨enc, vcp⟩ r hd
+  refine ⟨?_, ?_, ?_⟩
+  · rw [prettyToks_text]
+    simp [tagDecode, hh, receiverStream, levelOf, pretty_refines u l _ hdist]
+  · rw [plainToks_text]
+    simp [tagDecode, hh, receiverStream, levelOf, plain_refines]
+  · have := eqv_toks ⟨enc, vcp⟩ u hu r l false [] [] hok (Eqv.refl []) []
+    simpa [canon] using this
+
+example : specialsOk demoRaw = true ∧ demoRaw.hidden = false := by decide
+example : canon (plainToks ⟨none, ofS "/"⟩ demoRaw) =
+    [.markup (ofS "<head>"), .markup (ofS "<meta charset=\"iso-8859-1\"/>"), .markup (ofS "<!-- c -->"), .data (ofS "t"),
+     .markup (ofS "</head>")] ∧
+    prettyToks ⟨none, ofS "/"⟩ (ofS " ") 0 false demoRaw =
+    [.data [], .markup (ofS "<head>"), .data [10], .data (ofS " "), .markup (ofS "<meta charset=\"iso-8859-1\"/>"), .data [10],
+     .data (ofS " "), .markup (ofS "<!-- c -->"), .data [10], .data (ofS " t\n"), .data [], .markup (ofS "</head>"),
+     .data [10]] := by decide
+/-- a doctype's newline belongs to the character data after it -/
+example : plainToks ⟨none, []⟩ (.str (ofS "<!DOCTYPE ") (ofS ">\n") (ofS "html")) =
+    [.markup (ofS "<!DOCTYPE html>"), .data [10]] := by decide
+
+/-- Table fact over the whole generated table of string classes: every PREFIX starts with a character that is not whitespace —
+    the hypothesis `specialsOk` of `pretty_same_tokens` holds for every string of every bs4 class, whatever its body. -/
+theorem specials_ok_table : ∀ e ∈ BS.Gen.Pretty.stringAffixes, ∀ body, specialsOk (.str e.2.1 e.2.2.1 body) = true := by
+  have hall : BS.Gen.Pretty.stringAffixes.all (fun e => specialsOk (.str e.2.1 e.2.2.1 [])) = true := by decide +kernel
+  intro e he body
+  have := List.all_eq_true.mp hall e he
+  cases hp : e.2.1 <;> simp_all [specialsOk]
 
 end BS.Props.C14
